@@ -19,10 +19,15 @@ Arguments OutNone {F}. Arguments OutPoints {F}. Arguments OutOther {F}.
 
 (* __getattr__ is only consulted when ordinary attribute lookup fails: a tag whose name is a method of the class or
    one of the four instance attributes is never converted on an attribute read, Python returns the attribute itself *)
+(* = sorted(dir(CoordinateManager())) on the pinned interpreter; tools/props/C04.py compares this list with the real
+   dir() on every run and with its own copy, fail-closed *)
 Definition class_attributes : list string :=
-  ["append_transform"; "uniform_scale"; "non_uniform_scale"; "convert_units"; "flip"; "translate"; "reorient"; "rotate";
-   "tag_as"; "do_transform"; "_tags_to_indices"; "_points_tag"; "_points"; "_transform";
-   "__dict__"; "__class__"; "__doc__"; "__module__"; "__init__"; "__setattr__"; "__getattr__"]%string.
+  ["__class__"; "__delattr__"; "__dict__"; "__dir__"; "__doc__"; "__eq__"; "__format__"; "__ge__";
+   "__getattr__"; "__getattribute__"; "__getstate__"; "__gt__"; "__hash__"; "__init__"; "__init_subclass__";
+   "__le__"; "__lt__"; "__module__"; "__ne__"; "__new__"; "__reduce__"; "__reduce_ex__"; "__repr__";
+   "__setattr__"; "__sizeof__"; "__str__"; "__subclasshook__"; "__weakref__"; "_points"; "_points_tag";
+   "_tags_to_indices"; "_transform"; "append_transform"; "convert_units"; "do_transform"; "flip";
+   "non_uniform_scale"; "reorient"; "rotate"; "tag_as"; "translate"; "uniform_scale"]%string.
 Definition attr_shadowed (name : string) : bool := existsb (String.eqb name) class_attributes.
 
 (* _tags_to_indices: a dict; the most recent binding of a name is found first *)
